@@ -4,6 +4,7 @@ import PoaVerif.Witness.D3
 import PoaVerif.Witness.D4
 import PoaVerif.Witness.D5
 import PoaVerif.Facts
+import PoaVerif.Lemmas.RunTotal
 /-
   C04 — no transaction sequence halts the chain; updates are always valid for CometBFT.
   FALSE of the code as stated (defect classes D2–D7); machine-checked witnesses below, plus what is proved.
@@ -103,5 +104,31 @@ theorem c04_min_power (s s' : App) (op p : Nat) (u : Bool) (h : setPowerMsg genL
   by_cases hp : p < 1000000
   · simp [hp] at h
   · unfold PR; omega
+
+/-! ### what holds for every state inside the decidable region `Pre` (Model/Pre.lean)
+
+  The defect classes D2–D7 are the ways a PoA message leaves the state outside `Pre`; inside it the EndBlocker is
+  proved total and its update list acceptable, for every number of validators, every power, every queue content. -/
+
+/-- **C04, one EndBlocker, every `Pre` state**: x/staking's EndBlocker (`ApplyAndReturnValidatorSetUpdates`, the pool
+    transfer, `UnbondAllMatureValidators`) returns no error and does not panic; CometBFT accepts the update list — at
+    most one update per key, no negative or oversized power, no removal of an absent key, a non-empty resulting set,
+    total power within the maximum — and the resulting set is the chain's own -/
+theorem c04_endblock_pre (s : App) (c : CSet) (h : Pre s c = true) :
+    ∃ ups s' c', s.stakingEndBlock = .ok (ups, s') ∧ Comet.applyChangeSet c ups = .ok c' ∧ Agree c' s' :=
+  stakingEndBlock_pre s c h
+
+/-- **C04, whole histories (partial: histories inside `Pre` whose BeginBlockers succeed)**: by induction over the
+    block list — any number of blocks, any transactions — the run reaches its end with one step per block: no
+    EndBlocker halts, no update list is refused.  Missing against `C04_full`: histories that leave `Pre` (the known
+    findings, witnesses above) and failures of x/slashing's BeginBlocker on votes of unknown validators. -/
+theorem c04_partial (env : Env) (s : App) (c : CSet) (bs : List Block)
+    (hpre : preAll env s c bs = true) (hbeg : beginOk env s c bs = true) :
+    (runFrom env s c bs).2 = .done ∧ (runFrom env s c bs).1.length = bs.length :=
+  runFrom_total env bs s c hpre hbeg
+
+/-- non-vacuity: blocks of the D3 witness history before the double SetPower lie inside `Pre` with successful
+    BeginBlockers -/
+example : preAll genEnv Witness.D3.s0 Witness.D3.c0 [Witness.D3.b1] = true ∧ beginOk genEnv Witness.D3.s0 Witness.D3.c0 [Witness.D3.b1] = true := by decide
 
 end PoaVerif.Props.C04
